@@ -21,21 +21,23 @@ Print Assumptions C01_binary_operands_are_arguments.
 (** ** Semantic statement (core language of Sem.v) *)
 From IastRw Require Import Sem P_Sem.
 
-(** For every world -- every way of answering [+] and calls, and every way the user variables may
-    change after each interaction -- and every source expression built from literals, variables,
-    [+] and calls: the rewritten expression yields the same outcome (value or exception) and the same
-    history of interactions as the source, from any counter value and any temporary store, and it
-    writes only temporaries in the range it allocated. *)
+(** For every world -- every way of answering [+], property reads and calls, and every way the user
+    variables may change after each interaction -- every set of instrumented method names, and every
+    source expression built from string literals, variables, [+], calls, method calls and parentheses:
+    the rewritten expression yields the same outcome (value or exception) and the same history of
+    interactions as the source, from any counter value and any temporary store, and it writes only
+    temporaries in the range it allocated.  ([rw] is the function the check ties to the code: SemTie.v.) *)
 Theorem C01_core_equivalence :
-  forall (respond : hist -> event -> resp) (ustore : hist -> string -> value) (e : expr),
+  forall (respond : hist -> event -> resp) (ustore : hist -> string -> value)
+         (instr lit_ok : string -> bool) (e : expr),
     src e ->
     forall c h t,
-      let e' := fst (rw e c) in
-      let c' := snd (rw e c) in
+      let e' := fst (rw instr lit_ok e c) in
+      let c' := snd (rw instr lit_ok e c) in
       c <= c' /\
       forall o h', (forall t2 : tenv, eval respond ustore e (h, t2) = (o, (h', t2))) ->
         exists t', eval respond ustore e' (h, t) = (o, (h', t')) /\ frame c c' t t'.
-Proof. intros respond ustore e Hs. exact (rw_correct respond ustore e Hs). Qed.
+Proof. intros respond ustore instr lit_ok e Hs. exact (rw_correct respond ustore instr lit_ok e Hs). Qed.
 Print Assumptions C01_core_equivalence.
 
 (** The premise is always met: a source expression has an outcome and a history that do not depend on
@@ -47,10 +49,17 @@ Theorem C01_source_ignores_temporaries :
 Proof. intros respond ustore e Hs. exact (src_tenv respond ustore e Hs). Qed.
 Print Assumptions C01_source_ignores_temporaries.
 
-(** Non-vacuity: an expression where both operands are hoisted, and one where the left identifier is kept. *)
+(** Non-vacuity: both operands hoisted; the left identifier kept; a sum of literals left in place and
+    not passed; a method call on an identifier with a literal argument. *)
 Example C01_core_example :
-  fst (rw (Add (CallE (Var "f") (Var "x")) (Var "y")) 0) =
+  let all := fun _ : string => true in
+  fst (rw all all (Add (CallE (Var "f") (Var "x")) (Var "y")) 0) =
     Hoist1 0 (CallE (Var "f") (Var "x")) (Hook (Add (Tmp 0) (Var "y")) [Tmp 0; Var "y"]) /\
-  fst (rw (Add (Var "y") (CallE (Var "f") (Var "x"))) 0) =
-    Hoist2 0 (Var "y") 1 (CallE (Var "f") (Var "x")) (Hook (Add (Tmp 0) (Tmp 1)) [Tmp 0; Tmp 1]).
-Proof. split; reflexivity. Qed.
+  fst (rw all all (Add (Var "y") (CallE (Var "f") (Var "x"))) 0) =
+    Hoist2 0 (Var "y") 1 (CallE (Var "f") (Var "x")) (Hook (Add (Tmp 0) (Tmp 1)) [Tmp 0; Tmp 1]) /\
+  fst (rw all all (Add (Add (Lit (VStr "a")) (Lit (VStr "b"))) (Var "y")) 0) =
+    Hoist1 0 (Var "y") (Hook (Add (Add (Lit (VStr "a")) (Lit (VStr "b"))) (Tmp 0)) [Tmp 0]) /\
+  fst (rw all all (MCall1 (Var "s") "concat" (Lit (VStr "x"))) 0) =
+    Hoist2 0 (Var "s") 1 (Get (Tmp 0) "concat")
+           (Hook (CallT1 (Tmp 1) (Tmp 0) (Lit (VStr "x"))) [Tmp 1; Tmp 0; Lit (VStr "x")]).
+Proof. repeat split; reflexivity. Qed.
